@@ -1,6 +1,93 @@
 """Per-property configuration of ./check (what is compiled, what the evidence says)."""
 
 PROPS = {
+    "C01": {
+        "generated": True,
+        "rule": "exhaustive sweep of header bytes 2,3 (2^16) x every field x every in-domain value on the real Header (oracle); "
+                "1500 sampled header operations and 1500 (thorough 40000) random messages (all compression types incl. a second "
+                "registered compressor and unregistered ones, fields from a grammar of empty/1-byte/non-UTF-8/0x00,0xFF runs/300 B/70 KiB, "
+                "0-12 metadata entries, payload sizes around 512/1024/4096 and 64 KiB, thorough 1 MiB), each encoded by both encoders and "
+                "decoded again; distinct = distinct model-input line; non-trivial = header op, or a message with metadata or payload",
+        "theorems": ["C01_SetVersion", "C01_SetMessageType", "C01_SetHeartbeat", "C01_SetOneway", "C01_SetCompressType",
+                     "C01_SetMessageStatusType", "C01_SetSerializeType", "C01_SetSeq", "C01_generated_getters_agree",
+                     "C01_pooled_encoder_is_frame", "C01_encoders_agree", "C01_roundtrip_pooled", "C01_roundtrip_stream"],
+        "assumptions": ["compressors are parameters of the model: the round trip is proved under unzip(zip p) = p for the message's payload; "
+                        "the bytes gzip/snappy actually produced are passed to the model as a table",
+                        "Go map iteration order of Metadata is an input (read back from the encoded frame)",
+                        "lengths >= 2^32 are excluded by premise (the code truncates with uint32())"],
+        "trusted": ["tools/goheader2v (go/ast translator of the 17 Header accessors into Wire/HeaderGen.v, regenerated on every run; "
+                    "refuses constructs outside its expression language)",
+                    "harness/internal/refcodec (independent reference frame parser/builder used by the oracle)"],
+        "level_text": "Theorems for all messages / headers / buffer contents: accessor laws proved about definitions regenerated from "
+                      "protocol/message.go on every run (finite flag-byte domain by exhaustive vm_compute sweep, seq by arithmetic), the pooled "
+                      "encoder overwrites every byte of a dirty buffer, both encoders equal the frame specification, and Decode(Encode m) = m "
+                      "through the slice-level decoder model. The hand-written codec model is run against Encode/WriteTo/Decode on every check.",
+        "level_note": "Trusted: Coq kernel (vm_compute used for finite sweeps), the translator goheader2v, extraction (ExtrOcamlBasic only), "
+                      "the correspondence harness. gzip/snappy are premises. Modelled, not verified: protocol/message.go, util/compress.go.",
+    },
+    "C02": {
+        "rule": "per base frame: every truncation point (fresh and reused object), every length field (total, path, method, metadata, "
+                "each metadata key/value, payload) replaced by each of {0,1,len-1,len,len+1,2^16,2^31-1,2^31,2^32-1} (fresh and reused), "
+                "MaxMessageLength in {1,total-1,total,total+1}; random sequences of 1-4 decodes on one object with/without Reset mixing valid "
+                "frames, bit flips, garbage, trailing bytes, body slack; multi-frame streams through a chunking reader; distinct = distinct "
+                "model-input line; non-trivial = more than 16 stream bytes or more than one decode on the object",
+        "theorems": ["C02_success_consumes_one_frame", "C02_fields_are_the_delimited_ranges", "C02_decoder_refines_spec",
+                     "C02_independent_of_object_history", "C02_never_panics", "C02_too_long_rejected_before_body",
+                     "C02_concatenated_frames_resynchronise"],
+        "assumptions": ["io.ReadFull over bufio.Reader delivers exactly the next n bytes of the concatenated stream or EOF/ErrUnexpectedEOF "
+                        "(any chunking); exercised by the chunking reader, not modelled",
+                        "memory exhaustion for a declared 4 GiB body with MaxMessageLength=0 is outside the model",
+                        "compressors are parameters (their Unzip result is an input)"],
+        "trusted": ["harness/internal/refcodec (independent reference frame parser used as the referee of the oracle)"],
+        "level_text": "Theorems for every byte stream, every previous state of the message object and every MaxMessageLength about a decoder "
+                      "model with Go slice semantics (backing array/len/cap, out-of-range = panic, recover): it refines a list-level spec, "
+                      "success implies exactly one well-delimited frame was consumed and the fields are its ranges, the result never depends on "
+                      "the object's history, panic is unreachable, over-long frames are rejected before the body, concatenated frames "
+                      "resynchronise. The model is run against Message.Decode on every truncation / boundary substitution on every check.",
+        "level_note": "Trusted: Coq kernel, extraction, harness + refcodec. io.ReadFull/bufio and the compressors are premises. "
+                      "Modelled, not verified: Message.Decode, decodeMetadata.",
+    },
+    "C11": {
+        "rule": "random update/selection histories (sets of 0-8 servers out of 16 names, metadata from grammars of valid and invalid "
+                "weight / latitude / longitude strings) over the five strategies random, round-robin, weighted, consistent hash, closest; "
+                "plus antipodal / extreme geometry for the closest strategy; distinct = distinct model-input line; non-trivial = at least "
+                "one selection with a non-empty last set",
+        "theorems": ["C11_random_member", "C11_random_empty_iff", "C11_round_robin_member", "C11_round_robin_empty", "C11_weighted_ring",
+                     "C11_closest_member", "C11_closest_empty_iff", "C11_hash_new", "C11_hash_update", "C11_hash_member",
+                     "C11_hash_empty_iff"],
+        "assumptions": ["random picks (fastrand, math/rand) are oracle values: the model accepts any index in range",
+                        "url.ParseQuery / strconv.Atoi / ParseFloat results and the float64 distance getDistanceFrom returned are inputs "
+                        "(no trigonometry in the model); an eligible server's distance is assumed not NaN (observed by the harness)",
+                        "doublejump's object->index maps are modelled as the inverse of its arrays",
+                        "fewer than 2^31 slots (premise small)",
+                        "WeightedICMP needs ICMP and is outside the property's quantifier"],
+        "trusted": ["/repo/client/verif_export.go: VerifNewSelector, VerifNewGeoSelector, VerifSelectorOrder, VerifGeoDistance",
+                    "Flocq 4.1 (BinarySingleNaN) for the bit-exact jump hash; its correctness theorems rest on Coq.Reals axioms"],
+        "level_text": "Theorems for every server set, every metadata (as parsed) and every history of updates: each strategy's model returns "
+                      "a member of the most recent set that is eligible, and the empty result exactly when nothing is eligible; for the hash "
+                      "strategy via the representation invariant of doublejump proved by induction over Add/Remove. Crashes are excluded by "
+                      "running the real selectors on every case under recover.",
+        "level_note": "Trusted: Coq kernel; stdlib real-number axioms (through Flocq) under the hash theorems; extraction; harness. "
+                      "Modelled, not verified: client/selector.go, edwingeng/doublejump, dgryski/go-jump.",
+    },
+    "C13": {
+        "rule": "600 (thorough 20000) jump-hash evaluations (random and boundary keys, 1..64 and 2^k buckets) compared bit-exactly, 100 FNV "
+                "strings, and consistent-hash histories (start sets of 1-12 of 40 servers, then re-announcements, pure additions incl. names "
+                "sorting before existing ones, removals, mixed) with 6 independently constructed selectors per set; distinct = distinct "
+                "model-input line; non-trivial = more than one bucket / server / update",
+        "theorems": ["C13_jump_in_range", "C13_jump_monotone", "C13_same_set_update_is_noop",
+                     "C13_construction_independent_of_map_order", "C13_additions_are_monotone", "C13_single_add_monotone"],
+        "assumptions": ["fmt.Sprintf(\"%v\", args) is an input (the key string)", "fewer than 2^31 slots",
+                        "doublejump's object->index maps are modelled as the inverse of its arrays"],
+        "trusted": ["Flocq 4.1 BinarySingleNaN (IEEE-754 binary64 model); Coq.Reals axioms under the jump monotonicity proof",
+                    "/repo/client/verif_export.go: VerifNewSelector"],
+        "level_text": "Theorems: the bit-exact jump hash never moves a key backwards when a bucket is added (Flocq proof about float64 "
+                      "rounding), hence from any reachable doublejump state adding servers moves a key only onto an added server; "
+                      "re-announcing the same set is a no-op; construction is a function of the set, not of map order. The executable model "
+                      "agrees bit for bit with go-jump / doublejump on every check.",
+        "level_note": "Trusted: Coq kernel; the four stdlib real-number axioms printed by Print Assumptions; Flocq; extraction; harness. "
+                      "Modelled, not verified: consistentHashSelector, doublejump, go-jump.",
+    },
     "C12": {
         "rule": "exhaustive weight vectors (quick: n<=3,w<=4 and n=4,w<=2; thorough: n<=4,w<=6) from a random window "
                 "offset, round-robin sets n=0..8 from every cursor offset, and random update/selection histories over a "
